@@ -133,18 +133,29 @@ def gen_s2(rng, positions):
             else:
                 fen = rng.choice(positions)[0] if rng.random() < 0.9 else "rnbqkbnr/pppppppp/8/8/8/8/PPPPPPPP/RNBQKBNR w KQkq - 0 1"
             white = 1 if fen.split()[1] == "w" else 0
-            kind = rng.choice(["depth", "depth", "nodes", "infinite", "movetime"])
+            kind = rng.choice(["depth", "depth", "nodes", "nodes", "infinite", "movetime", "depthnodes", "mate", "searchmoves"])
+            posarg = "fen " + fen
             if kind == "depth":
                 go, mode, wait, lim, inf, maxt = "depth %d" % rng.randint(1, 3), "wait", 0, 1, 0, -1
             elif kind == "nodes":
                 go, mode, wait, lim, inf, maxt = "nodes %d" % rng.choice([1, 50, 300, 1500]), "wait", 0, 1, 0, -1
+            elif kind == "depthnodes":
+                go, mode, wait, lim, inf, maxt = "depth %d nodes %d" % (rng.randint(1, 4), rng.choice([20, 400, 2000])), "wait", 0, 1, 0, -1
+            elif kind == "mate":
+                go, mode, wait, lim, inf, maxt = "mate %d" % rng.randint(1, 2), "wait", 0, 1, 0, -1
+            elif kind == "searchmoves":
+                # the last move of the game that led to a random position is legal in its predecessor
+                g = rng.choice([p for p in positions if len(p[1].split()) >= 2])
+                mv = g[1].split()
+                posarg, white, tbk = "startpos moves " + " ".join(mv[:-1]), 1 if (len(mv) - 1) % 2 == 0 else 0, -1
+                go, mode, wait, lim, inf, maxt = "searchmoves %s depth 2" % mv[-1], "wait", 0, 1, 0, -1
             elif kind == "infinite":
                 # with a tablebase root the stop waits (up to 120 s) for the generation to finish instead of a fixed time
                 go, mode, wait, lim, inf, maxt = ("infinite", "tbstop", 60, 0, 1, -1) if tbk >= 0 else ("infinite", "stop", rng.randint(5, 40), 0, 1, -1)
             else:
                 t = rng.choice([5, 20, 40])
                 go, mode, wait, lim, inf, maxt = "movetime %d" % t, "wait", 0, 0, 0, t
-            ops.append("GO %s %d %d %d %d %d %d | position fen %s | go %s" % (mode, wait, white, lim, inf, tbk, maxt, fen, go))
+            ops.append("GO %s %d %d %d %d %d %d | position %s | go %s" % (mode, wait, white, lim, inf, tbk, maxt, posarg, go))
         elif r < 0.70:
             ops.append("UCI setoption name Clear Hash")
         elif r < 0.76:
@@ -434,12 +445,37 @@ def make_jobs(ctx, positions, variant, directed=None):
         trs = S.track(a, variant)
         plan.append({"base": base, "prior": prior, "pp": S.pos_cmd(pp), "pgo": probe_go, "a": a, "b": b, "tr": trs,
                      "classes": [classes_of(t, variant) for t in trs], "flavour": "tablebase-pressure", "k": len(prior)})
+    depth_probes = []
+    dpath = os.path.join(VERIF, "corpus", "c14_depth_probes.txt")
+    if os.path.exists(dpath):
+        for l in open(dpath):
+            l = l.strip()
+            if l and not l.startswith("#"):
+                fen, go = l.split("|")
+                depth_probes.append((fen.strip(), go.strip()))
+
+    def add_cross(flavour, k, probe_kind):
+        """the limit kind of the probe differs from the limit kinds of the prior searches: a limit member of
+        EngineControl that one kind of go sets and another kind fails to reset shows here.  Depth-only
+        probes (no node cap!) come from corpus/c14_depth_probes.txt, where they are known to be fast."""
+        base = H()
+        if probe_kind == "depth" and depth_probes:
+            fen, pgo = rng.choice(depth_probes)
+            pp = (fen, "")
+        else:
+            pp = rng.choice(positions)
+            pgo = "nodes %d" % rng.choice([8000, 20000, 40000])
+        prior = S.gen_prior(rng, positions, pp, k, base, flavour, budget)
+        a, b = S.assemble(base, prior, S.pos_cmd(pp), pgo)
+        trs = S.track(a, variant)
+        plan.append({"base": base, "prior": prior, "pp": S.pos_cmd(pp), "pgo": pgo, "a": a, "b": b, "tr": trs,
+                     "classes": [classes_of(t, variant) for t in trs], "flavour": "cross-" + flavour, "k": k})
+    H = lambda: {"Hash": rng.choice(["1", "1", "2", "4", "16"])}
     if directed is not None:
         # finder stage after a broken correspondence: sessions derived from the shrunk op sequence
         for hash_mb, scale, pgo in (("8", 3, None), ("8", 1, "depth 10 nodes 600000"), (directed["hash"], 5, None)):
             add_tb_pressure(hash_mb if int(hash_mb) >= 8 or not directed["tb"] else "8", scale, pgo, extra_prior=list(directed["prior"]))
         return plan
-    H = lambda: {"Hash": rng.choice(["1", "1", "2", "4", "16"])}
     if quick:
         for k in (15, 31, 15):                      # F5 class: probe runs with generation 0
             add(k, "plain", H())
@@ -463,6 +499,11 @@ def make_jobs(ctx, positions, variant, directed=None):
         add_tb()
         add_tb_pressure("8")
         add_tb_pressure("8")
+        add_cross("nodes-prior", rng.randint(1, 6), "depth")
+        add_cross("nodes-prior", rng.randint(1, 12), "depth")
+        add_cross("time-prior", rng.randint(1, 8), "depth")
+        add_cross("depth-prior", rng.randint(1, 8), "nodes")
+        add_cross("plain", rng.randint(2, 12), "depth")
     else:
         n = 500
         for i in range(n):
@@ -482,6 +523,9 @@ def make_jobs(ctx, positions, variant, directed=None):
                 base["Strength"] = rng.choice(["300", "800"])
                 fl = "plain"
             add(max(k, 0), fl, base, want=("clean" if i % 3 == 0 and "Contempt" not in base else None))
+            if i % 5 == 0:
+                add_cross(rng.choice(["nodes-prior", "nodes-prior", "time-prior", "depth-prior", "plain", "options0"]), rng.randint(1, 20),
+                          rng.choice(["depth", "depth", "nodes"]))
             if i % 25 == 0:
                 add_tb()
                 add_tb_pressure(rng.choice(["8", "8", "16"]), rng.choice([1, 3, 6]))
@@ -719,13 +763,13 @@ def run(ctx):
     vline = [l for l in out.split("\n") if l.startswith("V ")]
     if rc != 0 or not vline:
         raise RuntimeError("DETECT failed: rc=%d %s" % (rc, err[-500:]))
-    variant = tuple(max(0, int(x)) for x in vline[0].split()[1:5])
-    fixed = bool(variant[0] and (variant[1] or variant[2]))
+    variant = tuple(max(0, int(x)) for x in vline[0].split()[1:6])
+    fixed = bool(variant[0] and (variant[1] or variant[2]) and variant[4])
     ctx.notes["variant"] = {"clear_resets_generation": variant[0], "clear_clears_evalcache": variant[1],
-                            "evalkey_has_contempt": variant[2], "tbabort_drops_tb": variant[3], "detect_line": vline[0],
+                            "evalkey_has_contempt": variant[2], "tbabort_drops_tb": variant[3], "go_resets_limits": variant[4], "detect_line": vline[0],
                             "theorem_that_applies": "C14_clear_equiv_fresh" if fixed else
                             "C14_clear_diff_characterised + C14_clear_equiv_fresh_refuted" + ("" if variant[0] else " (generation)") +
-                            ("" if (variant[1] or variant[2]) else " (+ _refuted_evalcache)")}
+                            ("" if (variant[1] or variant[2]) else " (+ _refuted_evalcache)") + ("" if variant[4] else " (+ _refuted_limits)")}
     ctx.log("variant of the code: %s -> %s" % (variant, "FIXED" if fixed else "not fixed"))
     rc, out, err = sh([har, "f5"], timeout=120)
     f5 = [l.split()[-1] for l in out.strip().split("\n")]
@@ -734,6 +778,12 @@ def run(ctx):
     # (4b) S1
     rc, out, _ = sh([har, "genpos", str(ctx.seed), "300"], timeout=120)
     positions = [tuple(l.split("|")) for l in out.strip().split("\n") if "|" in l]
+    # random-game positions with at most 4 men and no pawns are roots for on-demand tablebase generation
+    # (4-man generation takes seconds): tablebase roots are only the curated ones (TB_FENS, S.TB_POSITIONS)
+    def tb_root(fen):
+        men = [c for c in fen.split()[0] if c.isalpha()]
+        return len(men) <= 4 and not any(c in "pP" for c in men)
+    positions = [p for p in positions if not tb_root(p[0])]
     corpus_ops = []
     cpath = os.path.join(VERIF, "corpus", "c14.txt")
     if os.path.exists(cpath):
@@ -885,7 +935,7 @@ def replay(ctx, body):
         har = cbuild.build_harness("persist_harness", with_util=False, netfile=net, extra_srcs=APP_SRCS)
         drv = coqbuild.extract("ExtractPersist.v", "persist_driver.ml", "persist_driver")
         ops = r["disagreement"]["ops"]
-        bad, l1, l2 = run_ops(har, drv, tuple(r.get("variant", (0, 0, 0, 0))), [ops])
+        bad, l1, l2 = run_ops(har, drv, tuple(r.get("variant", (0, 0, 0, 0, 1))), [ops])
         print("ops:", ops)
         print("harness:", l1)
         print("model:  ", l2)
